@@ -153,7 +153,7 @@ def isC0OrSpace (c : UInt8) : Bool := c ≤ 32
 inductive UrlClass where
   | scheme (s : Bytes)     -- lower-cased
   | relative
-  deriving Repr, BEq
+  deriving Repr, BEq, DecidableEq
 
 /-- WHATWG URL parser, scheme start / scheme states: strip leading and trailing C0-or-space,
     delete tab and newlines, then `ALPHA *(ALPHA / DIGIT / + / - / .) ":"`. -/
